@@ -194,6 +194,66 @@ theorem survivors_filter (d : Nat → Bool) (xs : List Nat) :
     survivors d 0 xs = ((xs.zipIdx 0).filter (fun p => !d p.2)).map (·.1) :=
   survivors_eq d 0 xs
 
+/-! ## composite idioms (sequences of operations, as ivykis' register/unregister pairs use them) -/
+
+/-- Queue then cancel (`iv_task_register` … `iv_task_unregister`, `iv_event_post` … the
+unregister's `iv_list_del`): `iv_list_add_tail(x, head)` followed by `iv_list_del(x)` never
+faults and gives back the list that was there before. -/
+theorem add_tail_then_del {h : Heap} {head : Nat} {xs : List Nat} {x : Nat}
+    (hR : Repr h head xs) (hx : Alloc h x) (hfresh : x ∉ head :: xs) :
+    ∃ h1 h2, addTail h x head = some h1 ∧ del h1 x = some h2 ∧ Repr h2 head xs ∧
+      h2 x = some ⟨none, none⟩ := by
+  obtain ⟨h1, e1, r1, _, _⟩ := add_tail hR hx hfresh
+  obtain ⟨h2, _, _, _, e2, r2, z, _⟩ := del_anywhere r1 (x := x) (by simp)
+  have hx' : x ∉ xs := fun m => hfresh (List.mem_cons_of_mem _ m)
+  have he : (xs ++ [x]).erase x = xs := by
+    rw [List.erase_append_right _ hx']; simp
+  exact ⟨h1, h2, e1, e2, he ▸ r2, z⟩
+
+/-- The same with `iv_list_del_init`: afterwards `iv_list_empty(x)` answers true, which is
+ivykis' "not registered / not pending" test, and the record can be queued again at once. -/
+theorem add_tail_then_del_init {h : Heap} {head : Nat} {xs : List Nat} {x : Nat}
+    (hR : Repr h head xs) (hx : Alloc h x) (hfresh : x ∉ head :: xs) :
+    ∃ h1 h2, addTail h x head = some h1 ∧ delInit h1 x = some h2 ∧ Repr h2 head xs ∧
+      empty h2 x = some true ∧
+      ∃ h3, addTail h2 x head = some h3 ∧ Repr h3 head (xs ++ [x]) := by
+  obtain ⟨h1, e1, r1, _, _⟩ := add_tail hR hx hfresh
+  obtain ⟨h2, _, _, _, e2, r2, rx, _⟩ := del_init_anywhere r1 (x := x) (by simp)
+  have hx' : x ∉ xs := fun m => hfresh (List.mem_cons_of_mem _ m)
+  have he : (xs ++ [x]).erase x = xs := by
+    rw [List.erase_append_right _ hx']; simp
+  rw [he] at r2
+  obtain ⟨h3, e3, r3, _⟩ := add_tail r2 (repr_alloc rx (by simp)) hfresh
+  exact ⟨h1, h2, e1, e2, r2, by simpa using empty_iff rx, h3, e3, r3⟩
+
+/-- FIFO: two `iv_list_add_tail`s are traversed in the order they were queued, after whatever
+was there already. -/
+theorem add_tail_fifo {h : Heap} {head : Nat} {xs : List Nat} {x y : Nat} {fuel : Nat}
+    (hR : Repr h head xs) (hx : Alloc h x) (hy : Alloc h y) (hfx : x ∉ head :: xs)
+    (hfy : y ∉ head :: xs) (hxy : x ≠ y) (hf : xs.length + 2 ≤ fuel) :
+    ∃ h1 h2, addTail h x head = some h1 ∧ addTail h1 y head = some h2 ∧
+      forEach fuel h2 head = some (xs ++ [x, y]) := by
+  obtain ⟨h1, e1, r1, fr, _⟩ := add_tail hR hx hfx
+  have hy' : Alloc h1 y := by
+    by_cases c : y ∈ [x, head, lst xs head]
+    · have hl : lst xs head ∈ head :: xs := lst_mem xs head
+      simp only [List.mem_cons, List.not_mem_nil, or_false] at c
+      rcases c with c | c | c
+      · exact absurd c.symm hxy
+      · exact absurd (c ▸ List.mem_cons_self) hfy
+      · exact absurd (c ▸ hl) hfy
+    · unfold Alloc; rw [fr y c]; exact hy
+  have hfy' : y ∉ head :: (xs ++ [x]) := by
+    simp only [List.mem_cons, List.mem_append, List.not_mem_nil, or_false] at hfy ⊢
+    rintro (c | c | c)
+    · exact hfy (Or.inl c)
+    · exact hfy (Or.inr c)
+    · exact hxy c.symm
+  obtain ⟨h2, e2, r2, _, _⟩ := add_tail r1 hy' hfy'
+  refine ⟨h1, h2, e1, e2, ?_⟩
+  have := for_each_visits (fuel := fuel) r2 (by simp; omega)
+  simpa using this
+
 /-! ## Non-vacuity: concrete heaps built by the pointer-level code itself
 Addresses 0..15 hold zeroed records (NULL fields); 0, 1, 2 are used as heads. -/
 
@@ -289,5 +349,13 @@ example : ∃ h', spliceTailInit h2 0 1 = some h' ∧ Repr h' 1 [8, 9, 7, 4, 6] 
 example : ∃ h', steal h2 1 2 = some h' ∧ Repr h' 2 [8, 9] ∧ Repr h' 1 [] ∧ Repr h' 0 [7, 4, 6] := by
   obtain ⟨h', e, r, s, _, p⟩ := steal_all (newh := 2) h2_repr.2 (by decide) (by decide)
   exact ⟨h', e, r, s, p _ _ h2_repr.1 (by decide)⟩
+
+example : ∃ a b, addTail h1 9 0 = some a ∧ del a 9 = some b ∧ Repr b 0 [7, 4, 5, 6] := by
+  obtain ⟨a, b, p, q, r, _⟩ := add_tail_then_del h1_repr (x := 9) (by decide) (by decide)
+  exact ⟨a, b, p, q, r⟩
+example : ∃ a b, addTail h1 9 0 = some a ∧ addTail a 10 0 = some b ∧
+    forEach 8 b 0 = some [7, 4, 5, 6, 9, 10] :=
+  add_tail_fifo h1_repr (x := 9) (y := 10) (by decide) (by decide) (by decide) (by decide)
+    (by decide) (by decide)
 
 end Ivy.Props.C06list
